@@ -5,7 +5,8 @@ import sqlcommon as sc, semcommon as sm
 from sexpr import enc, hexs
 from odata_query import ast
 
-PROP_MODS = ["ODataVerif.Tie.Sql", "ODataVerif.Tie.SqlTemplates", "ODataVerif.Props.C01", "ODataVerif.Props.C01Chain", "ODataVerif.Props.C01Full", "ODataVerif.Spec.NumFn"]
+PROP_MODS = ["ODataVerif.Tie.Sql", "ODataVerif.Tie.SqlTemplates", "ODataVerif.Props.C01", "ODataVerif.Props.C01Chain", "ODataVerif.Props.C01Full", "ODataVerif.Spec.NumFn"] + \
+            [m for m in ("ODataVerif.Props.DateOrder",) if os.path.exists(common.lean_module_path(m))]
 KF_SIG = "C01:sqlite:semOk-excluded"
 
 def texts_of(nodes):
@@ -139,17 +140,35 @@ def run(ctx):
             return {x[0] for x in ncon.execute("SELECT id FROM t WHERE " + bytes.fromhex(r[3:]).decode())}
         except Exception as e:  # noqa
             return f"sqlite-error {e}"
-    kf_round = lambda fn, r: fn == "round" and r["_q"] is not None and r["_q"] < 0      # KNOWN FINDING C01-sqlite-round-negative
+    kf_round = lambda fn, r: fn == "round" and r["_q"] is not None and r["_q"] <= -2   # exactly the cells of Spec.kf_trunc_shift_wrong     # KNOWN FINDING C01-sqlite-round-negative
     nviol, ntally = sm.judge_numeric(ctx, sqlite_ids, nrows, kf=kf_round)
     ctx.extra["judged_numeric"] = dict(ntally)
     ctx.note(f"numeric stream (floor / ceiling / round x 6 comparisons x 7 constants on {len(nrows)} rows, Spec.NumFn): {dict(ntally)}")
     if nviol:
         ctx.broken.append(f"real SQLite result violates C01 on {len(nviol)} (filter,row) pairs of the numeric stream; first: {nviol[0][0]!r} row={nviol[0][1]}: {nviol[0][2]}"[:700])
 
+    # 4. date stream: Edm.Date comparisons / membership / year month day hour minute second, judged against Spec.DateSem (Lean)
+    drows = sm.date_rows()
+    dcon = sm.sqlite_table(drows)
+    def sqlite_ids_d(t):
+        r, tree = real_where(t)
+        if not r.startswith("ok "):
+            return r
+        try:
+            return {x[0] for x in dcon.execute("SELECT id FROM t WHERE " + bytes.fromhex(r[3:]).decode())}
+        except Exception as e:  # noqa
+            return f"sqlite-error {e}"
+    dviol, dtally = sm.judge_dates(ctx, sqlite_ids_d, drows, skip=lambda t, got: str(got).startswith("lib UnsupportedFunctionException"))
+    ctx.extra["judged_dates"] = dict(dtally)
+    ctx.note(f"date stream (6 comparisons x 8 date literals on both sides, in-lists, year / month / day / hour / minute / second x comparisons, {len(drows)} rows incl. years 0001 / 0999 / 9999 and NULL, Spec.DateSem): {dict(dtally)}")
+    if dviol:
+        ctx.broken.append(f"real SQLite result violates C01 on {len(dviol)} (filter,row) pairs of the date stream; first: {dviol[0][0]!r} row={dviol[0][1]}: {dviol[0][2]}"[:700])
+    nviol = nviol + dviol
+
     def search(ctx):
         found = []
         for t, row, why in nviol[:20]:
-            found.append({"property": "C01", "filter": t, "row": row, "why": why, "signature": "C01:sqlite:numeric:" + t.split("(")[0],
+            found.append({"property": "C01", "filter": t, "row": row, "why": why, "signature": "C01:sqlite:stream:" + t.split("(")[0].split(" ")[0],
                           "replay": "parse(filter) -> AstToSqliteSqlVisitor().visit -> SELECT id FROM t WHERE <text> on the row (f1 REAL); compare with Spec.numFnHolds (Lean, `numfn`)"})
         for c, row, why in viol[:40]:
             found.append({"property": "C01", "filter": c[2], "tree": repr(c[1]), "where": bytes.fromhex(c[3][3:]).decode("utf-8", "replace") if c[3].startswith("ok ") else c[3],
